@@ -147,6 +147,14 @@ def shapes(tier):
                 members = [Mem('ack', P('BOOLEAN'), 'default', 'TRUE'), Mem('n1', P('INTEGER'), 'default' if alld else 'req', '5' if alld else None)]
                 t = Ty(cont, members=members)
                 out.append((f"C02 {cont} named {asn} with DEFAULT components{' only' if alld else ''}", f"M DEFINITIONS AUTOMATIC TAGS ::= BEGIN {asn} ::= {t.text()} END", {'top': t, 'defs': [(rust, t)]}))
+    # COMPONENTS OF copies the ROOT components of the referenced type only (X.680 25.5): nothing of what follows its marker
+    for cont, kw in (('seq', 'SEQUENCE'), ('set', 'SET')):
+        for adds, label in (("x BOOLEAN, y OCTET STRING OPTIONAL", 'additions'), ("[[ 2: g1 BOOLEAN, g2 NULL OPTIONAL ]]", 'an addition group'), ("", 'no additions')):
+            base_t = Ty(cont, members=[Mem('a', P('INTEGER'))])
+            base_t.extensible = True
+            derived = Ty(cont, members=[Mem('b', P('NULL')), Mem('a', P('INTEGER'))])
+            text = f"M DEFINITIONS AUTOMATIC TAGS ::= BEGIN Base ::= {kw} {{ a INTEGER, ...{', ' + adds if adds else ''} }} Derived ::= {kw} {{ b NULL, COMPONENTS OF Base }} END"
+            out.append((f"C02 {cont} COMPONENTS OF an extensible type with {label}", text, {'top': derived, 'defs': [('Derived', derived)], 'ignore_items': ['Base', 'BaseExtGroupG1']}))
     # reference cycles over several type assignments (mutual recursion), optionally through anonymous nested types
     conts = ('seq', 'set', 'choice')
 
@@ -437,6 +445,7 @@ def judge(items, info, chk, pc, nwarn):
     for n, t in defs:
         m.cur_top = n
         m.match_named(n, t, n)
+    m.used.update(info.get('ignore_items', ()))
     fails = m.finish(names)
     if chk is not None:
         chk.res.obligations += 1
